@@ -64,12 +64,22 @@ func (s *Server) Second() (*Server, error) {
 	return Start("file", s.Dir)
 }
 
+// Wedged: a request sent through the server's client got no answer within its watchdog; the server may hold locks
+// for good and must not be used for further cases.
+func (s *Server) Wedged() bool { return s.Client != nil && s.Client.Unanswered() > 0 }
+
+// Close stops the emulator. Closing waits for the requests in flight; on a wedged server (a handler that never
+// returns) that would block for ever, so there the shutdown is left to a background goroutine.
 func (s *Server) Close() {
 	if s.Client != nil {
 		s.Client.Close()
 	}
 	if s.Emu != nil {
-		s.Emu.Close()
+		if s.Wedged() {
+			go s.Emu.Close()
+		} else {
+			s.Emu.Close()
+		}
 	}
 	if s.owned {
 		_ = os.RemoveAll(s.Dir)
